@@ -100,7 +100,7 @@ def get_class(ctx: Ctx, c: dict) -> type:
                 specs.append((fname, Any))
             else:
                 dv = mk_value(ctx, dflt)
-                if isinstance(dv, (list, dict, set)):
+                if isinstance(dv, (list, dict, set)) or cid % 2 == 1:     # odd class ids: every default through a factory
                     specs.append((fname, Any, dataclasses.field(default_factory=lambda dflt=dflt: mk_value(ctx, dflt))))
                 else:
                     specs.append((fname, Any, dataclasses.field(default=dv)))
